@@ -446,7 +446,10 @@ theorem no_wedge (h : Heap) (hwf : h.wf = true) (cap : Nat) (es : List SEv)
 /-- **Every flight has an exit that releases everything**: a delivered event's `done()` is always
     possible; a parked event of a closed client (or after server stop) can always take its exit;
     either way one token is released, the connection leaves `processing`, and mail that arrived
-    meanwhile puts it back in the queue. -/
+    meanwhile puts it back in the queue.  `hlive` leaves out, on purpose, a parked event of a client
+    that is alive but not reading (its stream loop is inside a slow `Send`): that flight has no enabled
+    exit until the loop comes back, the stream's context ends or the server stops - a liveness
+    assumption about gRPC (a blocked send ends with its stream), not something the sender can repair. -/
 theorem flight_exit_releases (s : Sender) (hi : InvS s) (c : Conn) (hc : c ∈ inflight s)
     (hlive : c ∈ s.parked.map (·.1) → s.closed c = true ∨ s.stopped = true) :
     ∃ e s', stepS s e = some s' ∧ s'.tokens + 1 = s.tokens ∧ c ∉ inflight s' ∧ s'.q.processing c = none ∧
